@@ -65,6 +65,19 @@ def cond_parts(cond):
     return None
 
 
+def cond_canon(cond):
+    """comparison in canonical orientation: ('le'|'lt'|'eq'|'ne', small_side, big_side)"""
+    parts = cond_parts(cond)
+    if parts is None:
+        return None
+    op, a, b = parts
+    if op == "ge":
+        return ("le", b, a)
+    if op == "gt":
+        return ("lt", b, a)
+    return parts
+
+
 def implies_nonzero(cond, decision, atom):
     """Does deciding `cond` as `decision` imply that `atom` (a non-negative norm) is non-zero?"""
     parts = cond_parts(cond)
